@@ -73,17 +73,7 @@ impl Tuple {
             3 => Some(format!("1700000000000000000:1000000;{}:-5000000000;{}:99000000000000", rng.below(6), rng.below(12))), // backward + forward jump
             _ => Some("4102444800000000000:7".to_string()), // far future (2100)
         };
-        let envs: [&[(&str, &str)]; 8] = [
-            &[],
-            &[("LANG", "C")],
-            &[("LANG", "en_US.UTF-8"), ("LC_ALL", "tr_TR.UTF-8")],
-            &[("TZ", "Asia/Tokyo"), ("HOME", "/nonexistent")],
-            &[("TERM", "dumb"), ("COLUMNS", "7"), ("NO_COLOR", "1")],
-            &[("RUST_BACKTRACE", "1")],
-            &[("LC_ALL", "C.UTF-8"), ("LANGUAGE", "pl"), ("TMPDIR", "/nonexistent")],
-            &[("RUST_MIN_STACK", "1048576"), ("MALLOC_PERTURB_", "165")],
-        ];
-        let mut env: Vec<(String, String)> = rng.pick(&envs).iter().map(|(k, v)| (k.to_string(), v.to_string())).collect();
+        let mut env: Vec<(String, String)> = super::proc::env_set(rng);
         if rng.below(3) == 0 {
             // junk variables of seeded size: shifts the initial stack and the environment block
             let n = 1 + rng.below(6);
@@ -165,7 +155,7 @@ fn child_for(t: &Tuple, args: &[&str]) -> Child {
     c.env = t.env.clone();
     c.aslr = t.aslr;
     c.argv0 = t.argv0.clone();
-    c.shim = Some(ShimCfg { seed: t.hash_seed, plan, clock: t.clock.clone(), junk: t.junk, budget: None }); // no call budget: liveness is C06's and C08's claim, and the CPU watchdog bounds the child
+    c.shim = Some(ShimCfg { seed: t.hash_seed, plan, clock: t.clock.clone(), junk: t.junk, budget: None, ..Default::default() }); // no call budget: liveness is C06's and C08's claim, and the CPU watchdog bounds the child
     c
 }
 
